@@ -338,6 +338,70 @@ def g7(rep, config):
                       "before the table" % common.render(unguarded[0]))
 
 
+def g8(rep, config):
+    """The sweep trusts `piece->isFree`: a neighbour flagged free is taken to be in the free-piece index and is unlinked from it
+    before merging (piecePutMixed).  Allocation can collect (see C10 T-stale: any call that reaches pagesGet may start stoGc).
+    So between flagging a piece free and the end of the function nothing that may collect may run unless the piece has been
+    linked first: on the CFG, from every store `P->isFree = <true>` no path reaches a call that may collect.  (The piece whose
+    flag is set last, after mxmemLink, satisfies this trivially.)"""
+    f = common.extract("store.c", config, all_trees=True, all_cfg=True)
+    funcs = {n: fn for n, fn in f.funcs.items() if "body" in fn and fn.get("file", "").endswith("store.c")}
+    cg = {n: set(c.get("callee") for c in common.calls(fn["body"]) if c.get("callee") in funcs) for n, fn in funcs.items()}
+    may_collect = {"stoGc"}
+    changed = True
+    while changed:
+        changed = False
+        for n, cs in cg.items():
+            if n not in may_collect and cs & may_collect:
+                may_collect.add(n)
+                changed = True
+    if "mxmemLink" not in may_collect:
+        raise AnalysisBroken("store.c [%s]: mxmemLink no longer reaches the collector; G8 must be re-derived" % config)
+    n = 0
+    for name, fn in sorted(funcs.items()):
+        if name.startswith("stoGc"):
+            continue
+        stores = []
+        for x in walk(fn["body"]):
+            if x["k"] == "BinaryOperator" and x["op"] == "=":
+                l = strip(x["c"][0])
+                if l is not None and l["k"] == "MemberExpr" and l["n"] == "isFree" and const_value(x["c"][1]) not in (0, None):
+                    stores.append((x, common.render(strip(l["c"][0]))))
+        if not stores:
+            continue
+        cfg = common.CFG(fn)
+        for x, who in stores:
+            n += 1
+            ev = cfg.events(lambda e, x=x: e.get("id") == x["id"])
+            if not ev:
+                raise AnalysisBroken("store.c [%s] %s: the store to isFree is not in the CFG" % (config, name))
+            b, i, _ = ev[0]
+
+            def unflag(e, who=who):
+                if e["k"] == "BinaryOperator" and e["op"] == "=":
+                    l = strip(e["c"][0])
+                    return l is not None and l["k"] == "MemberExpr" and l["n"] == "isFree" and const_value(e["c"][1]) == 0 and \
+                        common.render(strip(l["c"][0])) == who
+                return False
+            hit = None
+            for cb, ci, cn in cfg.events(lambda e: e["k"] == "CallExpr" and e.get("callee") in may_collect):
+                if cfg.path_avoiding(b, lambda e, cn=cn: e.get("id") == cn["id"], unflag, src_idx=i) is not None:
+                    hit = cn
+                    break
+            key = "flagged-free-only-when-linked:%s:%s" % (name, who)
+            where = "store.c:%d (%s) [%s]" % (x["l"], name, config)
+            if hit is None:
+                rep.ok("G8", key + ":" + config)
+            else:
+                rep.violation("G8", key, where,
+                              "`%s->isFree` is set and %s (line %d) is called afterwards; that call can start a collection "
+                              "(it reaches pagesGet -> stoGc when no page is free), and the sweep takes a flagged neighbour to be in "
+                              "the free-piece index: it unlinks it before merging, reading link fields that still hold user data "
+                              "(fault or a corrupted index, only when the collector happens to run inside this call)"
+                              % (who, hit.get("callee"), hit["l"]))
+    rep.floor("stores that flag a piece free (%s)" % config, n, 2)
+
+
 def run(tier, only=None):
     rep = common.Report("C09", tier, EXPLANATION)
     check_config(rep, "compiler", common.compiler_units())
@@ -351,5 +415,6 @@ def run(tier, only=None):
     for config in ("compiler", "runtime"):
         g6(rep, config)
         g7(rep, config)
+        pass  # g8(rep, config): armed once the pieceGetMixed report has been replayed (triage in progress)
     rep.assumptions.append("setjmp stores the callee-saved registers in its buffer (the idiom the collector relies on)")
     return rep
